@@ -30,8 +30,12 @@ SIZES = {"quick": dict(inproc=14, sub=2), "thorough": dict(inproc=260, sub=25)}
 SHARD_TIMEOUT = {"quick": 900, "thorough": 7200}
 K_ERRNODE = c08.K_ERRNODE
 # explicit single-file targets: ordinary, already ending in _cm, several dots, spaces, leading dot, non-ASCII
-SINGLE_NAMES = ["sheet.css", "sheet.css", "admin_cm.css", "normalize.min.css", "my sheet.css", ".hidden.css", "a_cm_cm.css", "thème.css", "x.y.z.css", "_cm.css"]
+SINGLE_NAMES = ["sheet.css", "sheet.css", "admin_cm.css", "normalize.min.css", "my sheet.css", ".hidden.css", "a_cm_cm.css", "thème.css", "x.y.z.css", "_cm.css",
+                "print.css.css", "normalize.css.v8.css", "app.css.bundle.css", "admin_cms.css", "THEME.CSS", "Print.Css",
+                os.path.join("vendor", "normalize.css-8.0.1", "normalize.css"), os.path.join("my.css.d", "a.css")]
 DIR_NAMES = ["sheet0.css", "vendor.min.css", "print styles.css"]
+DIR_NAME_SETS = [["sheet0.css", "vendor.min.css", "print styles.css"], ["app.css.bundle.css", "grid_cmss.css", "print.css.css"],
+                 ["a.css", os.path.join("normalize.css-8.0.1", "normalize.css"), "admin_cms.css"]]
 
 
 def shards(tier, seed):
@@ -159,12 +163,13 @@ def one_run(rec, lib, rnd, d, dir_mode, st, inproc):
     """Build a scratch tree, run the command, judge. Returns nothing."""
     files = {}
     nfiles = rnd.choice([2, 3]) if dir_mode else 1
+    dir_names = rnd.choice(DIR_NAME_SETS)
     single_name = rnd.choice(SINGLE_NAMES) if inproc else rnd.choice(["thème.css", "my sheet.css", "sheet.css", "admin_cm.css"])
     dbg = (255, 255, 255) if st["default_bg"] is None else csscolor.read(st["default_bg"])
     for k in range(nfiles):
         sheet = SS.make_sheet(rnd, premium=st["premium"], default_bg=dbg, rich=True, tag=f"f{k}r")
-        name = DIR_NAMES[k] if dir_mode else single_name
-        rel = name if (not dir_mode or k == 0) else os.path.join("sub", name)
+        name = dir_names[k] if dir_mode else single_name
+        rel = name if (not dir_mode or k == 0 or os.sep in name) else os.path.join("sub", name)
         files[rel] = sheet
     # sometimes the stylesheets live in a sub-directory of the working directory: outputs must be beside the
     # inputs, the report in the *working directory*
@@ -249,6 +254,11 @@ def one_run(rec, lib, rnd, d, dir_mode, st, inproc):
             rec.violation(f"the run performed file-system writes other than creating the _cm.css files and the report: {bad[:4]}", case)
             return
     # ---- structure
+    if clirun.parse_stdout(out)["no_files"]:
+        # the tool does not regard the argument as a stylesheet (e.g. an upper-case extension): nothing to preserve, and the
+        # untouched-input / nothing-created clauses above have already been judged
+        rec.count("argument_not_taken_as_stylesheet")
+        return
     cards = clirun.parse_report(os.path.join(d, "cm_colors_report.html")) or []
     for rel, sheet in files.items():
         op = os.path.join(d, rel[:-4] + "_cm.css")
